@@ -49,8 +49,8 @@ def uriSafe (s : Str) : Bool :=
 
 def xmlPrefix : Str := ['x', 'm', 'l']
 def xmlnsPrefix : Str := ['x', 'm', 'l', 'n', 's']
-def xmlNsUri : Str := "http://www.w3.org/XML/1998/namespace".toList
-def xmlnsNsUri : Str := "http://www.w3.org/2000/xmlns/".toList
+def xmlNsUri : Str := ['h', 't', 't', 'p', ':', '/', '/', 'w', 'w', 'w', '.', 'w', '3', '.', 'o', 'r', 'g', '/', 'X', 'M', 'L', '/', '1', '9', '9', '8', '/', 'n', 'a', 'm', 'e', 's', 'p', 'a', 'c', 'e']
+def xmlnsNsUri : Str := ['h', 't', 't', 'p', ':', '/', '/', 'w', 'w', 'w', '.', 'w', '3', '.', 'o', 'r', 'g', '/', '2', '0', '0', '0', '/', 'x', 'm', 'l', 'n', 's', '/']
 
 /-- end-of-line handling (XML 1.0 §2.11) on character data -/
 def normEol : Str → Str
@@ -310,10 +310,10 @@ def eRun (xsiNil : EName) : EState → List Ev → Option EState
 def cfgRootAttrs (env : NsEnv) (cfg : Cfg) : List (EName × Str) :=
   let xsi := env.xsiNil.1
   let a1 := match cfg.schemaLocation with
-    | some loc => if loc.isEmpty then [] else [((some xsi, "schemaLocation".toList), loc)]
+    | some loc => if loc.isEmpty then [] else [((some xsi, ['s', 'c', 'h', 'e', 'm', 'a', 'L', 'o', 'c', 'a', 't', 'i', 'o', 'n']), loc)]
     | none => []
   let a2 := match cfg.noNsSchemaLocation with
-    | some loc => if loc.isEmpty then [] else [((some xsi, "noNamespaceSchemaLocation".toList), loc)]
+    | some loc => if loc.isEmpty then [] else [((some xsi, ['n', 'o', 'N', 'a', 'm', 'e', 's', 'p', 'a', 'c', 'e', 'S', 'c', 'h', 'e', 'm', 'a', 'L', 'o', 'c', 'a', 't', 'i', 'o', 'n']), loc)]
     | none => []
   a1 ++ a2
 
